@@ -1,4 +1,4 @@
-import Momo.Proof.TableCreate
+import Momo.Proof.TableProject
 /-!
 # C07 — DataTable queries equal a brute-force scan; unique indexes are never violated
 
@@ -81,6 +81,17 @@ theorem C07_findByMulti_eq_scan {vis : Vis} (hc : Complete vis) (acc : Acc) (hac
     (hidx : ∀ i, idx = some i → ∃ m, t.midx[i]? = some m ∧ sameCols m.cols (eqs.map (·.1)) = true)
     (L : List Nat) (h : findByMulti vis acc t idx eqs = some L) : L.Perm (scan t eqs (fun _ => true)) :=
   findByMulti_perm_scan hc acc hacc keep t hinv idx eqs hnd hidx L h
+
+/-- *"Project"*: the projection of the rows that pass the filter, in table order. -/
+theorem C07_project (vis : Vis) (acc : Acc) (t : Table) (cols : List Nat) (filt : Row → Bool) :
+    project vis acc t cols false filt = (t.rows.filter filt).map (fun r => cols.map (item r.vals)) :=
+  project_all vis acc t cols filt
+
+/-- *"ProjectDistinct"*: the first occurrence of every projected tuple, in table order (`dedupFirst` = brute force) -
+the temporary unique index over all result columns refuses exactly the tuples already present. -/
+theorem C07_projectDistinct {vis : Vis} (hc : Complete vis) (acc : Acc) (t : Table) (cols : List Nat) (filt : Row → Bool) :
+    project vis acc t cols true filt = dedupFirst [] ((t.rows.filter filt).map (fun r => cols.map (item r.vals))) :=
+  project_distinct hc acc t cols filt
 
 /-! ### add -/
 
@@ -234,13 +245,62 @@ theorem C07_numbers_eq_positions {acc : Acc} {t : Table} (hinv : Inv acc true t)
     (h : t.rows[i]? = some r) : r.num = i :=
   hinv.nums rfl i r h
 
+/-! ### update (whole row) -/
+
+/-- *"update (whole row …)"*, `TryUpdate(rowNumber, row)` with a new raw (fresh identity, address not in use), every
+fault position: the invariant is kept; `ok` only if no *other* row agrees with the new row on the columns of a unique
+index, and then the new row stands at position `n` with number `n`; `dup x j`: table unchanged, `x` is another row
+that agrees with the new one on the columns of unique index `j`, the first such index; `bad_alloc` only under a fault,
+table unchanged; no row `n`: `out_of_range`, nothing happens. -/
+theorem C07_update {vis : Vis} (hc : Complete vis) (acc : Acc) (keep : Bool) (t : Table) (hinv : Inv acc keep t) (n : Nat)
+    (r : Row) (hr : r.id ∉ ids t.rows) (hra : r.addr ∉ t.rows.map (·.addr)) (f : Fault) :
+    Inv acc keep (tryUpdate vis acc keep t n r f).1 ∧
+    match t.rows[n]? with
+    | none => tryUpdate vis acc keep t n r f = (t, .outOfRange)
+    | some old =>
+      match (tryUpdate vis acc keep t n r f).2 with
+      | .ok => (tryUpdate vis acc keep t n r f).1.rows = t.rows.set n (setNum keep r n) ∧
+               (∀ u ∈ t.uidx, ∀ y ∈ t.rows, y.id ≠ old.id → keyEq u.cols r.vals y.vals = false)
+      | .dup x j => TEquiv t (tryUpdate vis acc keep t n r f).1 ∧
+               ∃ u row, t.uidx[j]? = some u ∧ row ∈ t.rows ∧ row.id = x ∧ x ≠ old.id ∧ keyEq u.cols r.vals row.vals = true ∧
+                 ∀ i' u', i' < j → t.uidx[i']? = some u' → ∀ y ∈ t.rows, y.id ≠ old.id → keyEq u'.cols r.vals y.vals = false
+      | .badAlloc => TEquiv t (tryUpdate vis acc keep t n r f).1 ∧ f ≠ .none
+      | .outOfRange => False :=
+  tryUpdate_spec hc acc keep t hinv n r hr hra f
+
 /-! ### single-column update: finding F9 -/
 
-/-- the full statement for the single-column update: the invariant is kept for every hash-table behaviour allowed by
-the contract. It is **false** for the code as it is (finding F9): see `C07_updateCol_F9_witness`. -/
+/-- the full statement for the single-column update (`col` a column of the table): the invariant is kept for every
+hash-table behaviour allowed by the contract. It is **false** for the code as it is (finding F9): see
+`C07_updateCol_F9_witness`. -/
 def C07_updateCol_correct : Prop :=
   ∀ (vis : Vis), Complete vis → ∀ (acc : Acc) (keep : Bool) (t : Table), Inv acc keep t →
-    ∀ (n col v : Nat) (f : Fault), Inv acc keep (tryUpdateCol vis acc t n col v f).1
+    ∀ (n col v : Nat) (f : Fault), (∀ r, t.rows[n]? = some r → col < r.vals.length) →
+      Inv acc keep (tryUpdateCol vis acc t n col v f).1
+
+/-- *"update (… one column)"* **under the hypothesis the proof forces** (`NoF9`: in every index over the column in which
+the update has to add an entry, the lookup of the raw's old key that follows - `PrepareRemove(raw)` - does not return
+the entry just added; the entry has the same `Raw*`, whose items still read as the old key): the invariant is kept;
+`ok`: the row shows the new item (nothing else changes) and no row had the new key in a unique index over the column;
+`dup x j`: table unchanged, `x` is another row with the new key in unique index `j`; `bad_alloc` only under a fault,
+table unchanged. -/
+theorem C07_updateCol_partial {vis : Vis} (hc : Complete vis) (acc : Acc) (keep : Bool) (t : Table) (hinv : Inv acc keep t)
+    (n col v : Nat) (f : Fault) (hcol : ∀ r, t.rows[n]? = some r → col < r.vals.length)
+    (hF : ∀ r, t.rows[n]? = some r → NoF9 vis acc t r.id col v) :
+    Inv acc keep (tryUpdateCol vis acc t n col v f).1 ∧
+    match t.rows[n]? with
+    | none => tryUpdateCol vis acc t n col v f = (t, .outOfRange)
+    | some r =>
+      match (tryUpdateCol vis acc t n col v f).2 with
+      | .ok => (tryUpdateCol vis acc t n col v f).1.rows = setVals t.rows n (mixVals r.vals col v) ∧
+               (item r.vals col ≠ v → ∀ u ∈ t.uidx, col ∈ u.cols → ∀ y ∈ t.rows,
+                  keyEq u.cols (mixVals r.vals col v) y.vals = false)
+      | .dup x j => TEquiv t (tryUpdateCol vis acc t n col v f).1 ∧
+               ∃ u row, t.uidx[j]? = some u ∧ col ∈ u.cols ∧ row ∈ t.rows ∧ row.id = x ∧ x ≠ r.id ∧
+                 keyEq u.cols (mixVals r.vals col v) row.vals = true
+      | .badAlloc => TEquiv t (tryUpdateCol vis acc t n col v f).1 ∧ f ≠ .none
+      | .outOfRange => False :=
+  tryUpdateCol_partial hc acc keep t hinv n col v f hcol hF
 
 namespace C07ex
 
@@ -281,8 +341,78 @@ theorem C07_updateCol_F9_witness :
     ¬ C07_updateCol_correct := by
   refine ⟨by decide, by decide, by decide, by decide, ?_⟩
   intro hcorrect
-  have hinv : Inv accW false w2 := hcorrect visW visW_complete accW false w1 w1_inv 0 0 5 .none
+  have hinv : Inv accW false w2 := hcorrect visW visW_complete accW false w1 w1_inv 0 0 5 .none (by
+    intro r hr
+    have : w1.rows[0]? = some ⟨1, 10, 0, [4]⟩ := by decide
+    rw [this] at hr; rw [← Option.some.inj hr]; decide)
   have := findByUnique_eq_scan visW_complete accW accW_comm false w2 hinv (some 0) [(0, 5)] (by decide)
+    (fun i hi => by
+      simp only [Option.some.injEq] at hi; subst hi
+      exact ⟨{ cols := [0], ents := [⟨1, 4⟩] }, by decide, by decide⟩) [] (by decide)
+  exact absurd this (by decide)
+
+/-! ### histories -/
+
+/-- the full statement for histories: after **every** history of operations from the empty table (every operation meeting
+only its environment condition `Op.OkFull`: new raws have unused identities and addresses, copies get distinct
+addresses, index columns are distinct, updated columns exist) the invariant holds. **False** today because of the
+single-column update (F9): `C07_history_F9`. -/
+def C07_history_full : Prop :=
+  ∀ (vis : Vis), Complete vis → ∀ (acc : Acc) (keep : Bool) (ops : List Op),
+    ValidHistFull vis acc keep {} ops → Inv acc keep (run vis acc keep {} ops)
+
+/-- *"A DataTable behaves as an ordered list of rows under any history of add, insert, update (whole row or one column),
+remove (by number, reference, range, predicate), extract, assign, clear and copy, with every unique index enforced …
+Every query … returns exactly what a brute-force scan of the current rows returns, regardless of which unique/multi
+indexes exist or when they were created. Row numbers, when kept, equal list positions."*
+For every list of operations from the empty table (add, insert, update, column update, extract by number with and
+without order, extract by reference, remove rows / by predicate, assign, clear, replace by a filtered copy, create a
+unique / multi index at any time, drop the indexes; every fault position) in which each operation meets its environment
+condition `Op.Ok` - which for the single-column update includes `NoF9`, hence **partial** -: the invariant holds in the
+final state (so no two rows agree on the columns of a unique index and numbers equal positions) and every query
+equals the brute-force scan of the rows. What each operation does to the row list is stated by `C07_add` … `C07_copy`. -/
+theorem C07_history_partial {vis : Vis} (hc : Complete vis) (acc : Acc) (hacc : AccComm acc) (keep : Bool) (maxEq : Nat)
+    (ops : List Op) (hv : ValidHist vis acc keep {} ops) :
+    Inv acc keep (run vis acc keep {} ops) ∧
+    (∀ u ∈ (run vis acc keep {} ops).uidx,
+        (run vis acc keep {} ops).rows.Pairwise (fun a b => keyEq u.cols a.vals b.vals = false)) ∧
+    (keep = true → ∀ (i : Nat) (r : Row), (run vis acc keep {} ops).rows[i]? = some r → r.num = i) ∧
+    (∀ eqs filt, (eqs.map (·.1)).Nodup →
+        (select vis acc maxEq (run vis acc keep {} ops) eqs filt).Perm (scan (run vis acc keep {} ops) eqs filt) ∧
+        selectCount vis acc maxEq (run vis acc keep {} ops) eqs filt = (scan (run vis acc keep {} ops) eqs filt).length) ∧
+    (∀ idx eqs L, (eqs.map (·.1)).Nodup →
+        (∀ i, idx = some i → ∃ u, (run vis acc keep {} ops).uidx[i]? = some u ∧ sameCols u.cols (eqs.map (·.1)) = true) →
+        findByUnique vis acc (run vis acc keep {} ops) idx eqs = some L → L = scan (run vis acc keep {} ops) eqs (fun _ => true)) ∧
+    (∀ idx eqs L, (eqs.map (·.1)).Nodup →
+        (∀ i, idx = some i → ∃ m, (run vis acc keep {} ops).midx[i]? = some m ∧ sameCols m.cols (eqs.map (·.1)) = true) →
+        findByMulti vis acc (run vis acc keep {} ops) idx eqs = some L →
+        L.Perm (scan (run vis acc keep {} ops) eqs (fun _ => true))) := by
+  have hinv : Inv acc keep (run vis acc keep {} ops) :=
+    run_inv hc acc keep ops {} (Inv_empty acc keep {} rfl (by intro u hu; cases hu) (by intro m hm; cases hm)) hv
+  exact ⟨hinv, fun u hu => rows_pairwise_distinct hinv hu, hinv.nums,
+    fun eqs filt hnd => ⟨select_perm_scan hc acc hacc keep maxEq _ hinv eqs filt hnd,
+      selectCount_eq_scan hc acc hacc keep maxEq _ hinv eqs filt hnd⟩,
+    fun idx eqs L hnd hidx h => findByUnique_eq_scan hc acc hacc keep _ hinv idx eqs hnd hidx L h,
+    fun idx eqs L hnd hidx h => findByMulti_perm_scan hc acc hacc keep _ hinv idx eqs hnd hidx L h⟩
+
+/-- every single operation keeps the invariant (the induction step of the history theorem) -/
+theorem C07_step_inv {vis : Vis} (hc : Complete vis) (acc : Acc) (keep : Bool) (t : Table) (hinv : Inv acc keep t) (op : Op)
+    (hok : op.Ok vis acc t) : Inv acc keep (applyOp vis acc keep t op) :=
+  applyOp_inv hc acc keep t hinv op hok
+
+open C07ex in
+/-- **F9 at the level of histories**: create unique(col0), add the row `(4)`, set its col0 to 5 - the invariant is lost
+(`FindByUniqueHash(col0 = 5)` finds nothing). -/
+theorem C07_history_F9 : ¬ C07_history_full := by
+  intro hfull
+  have hv : ValidHistFull visW accW false {} [.createUnique [0], .add ⟨1, 10, 0, [4]⟩ .none, .updateCol 0 0 5 .none] := by
+    refine ⟨by show List.Nodup _; decide, ⟨by decide, by decide⟩, ?_, trivial⟩
+    intro r hr
+    have : (applyOp visW accW false (applyOp visW accW false {} (.createUnique [0])) (.add ⟨1, 10, 0, [4]⟩ .none)).rows[0]? =
+        some ⟨1, 10, 0, [4]⟩ := by decide
+    rw [this] at hr; rw [← Option.some.inj hr]; decide
+  have hinv := hfull visW visW_complete accW false _ hv
+  have := findByUnique_eq_scan visW_complete accW accW_comm false _ hinv (some 0) [(0, 5)] (by decide)
     (fun i hi => by
       simp only [Option.some.injEq] at hi; subst hi
       exact ⟨{ cols := [0], ents := [⟨1, 4⟩] }, by decide, by decide⟩) [] (by decide)
@@ -352,5 +482,39 @@ example : (extract visAll accSum true t3 0 true).1.rows.map (fun r => (r.id, r.n
     (createMulti visAll accSum t3 [1]).2 = 1 ∧
     select visAll accSum 6 (createMulti visAll accSum t3 [1]).1 [(1, 1)] (fun _ => true) = [1, 3] ∧
     (createUnique visAll accSum t3 [0]).2 = .error 2 := by decide
+
+open C07ex in
+/-- a valid history (indexes created before and after the data, a refused add, a column update that satisfies `NoF9`
+because this hash table meets old entries first, a removal) and the state it leads to -/
+example : ValidHist visAll accSum true {} [.createUnique [0, 1], .add ⟨1, 10, 0, [5, 1, 7]⟩ .none,
+      .add ⟨2, 20, 0, [5, 2, 7]⟩ .none, .add ⟨3, 30, 0, [5, 2, 8]⟩ .none, .createMulti [0], .updateCol 1 1 3 .none,
+      .extract 0 false] ∧
+    (run visAll accSum true {} [.createUnique [0, 1], .add ⟨1, 10, 0, [5, 1, 7]⟩ .none,
+      .add ⟨2, 20, 0, [5, 2, 7]⟩ .none, .add ⟨3, 30, 0, [5, 2, 8]⟩ .none, .createMulti [0], .updateCol 1 1 3 .none,
+      .extract 0 false]).rows.map (fun r => (r.id, r.num, r.vals)) = [(2, 0, [5, 3, 7])] := by
+  refine ⟨⟨by show List.Nodup _; decide, ⟨by decide, by decide⟩, ⟨by decide, by decide⟩, ⟨by decide, by decide⟩,
+      by show List.Nodup _; decide, ⟨?_, ?_⟩, trivial, trivial⟩,
+    by decide⟩
+  · intro r hr
+    have : (run visAll accSum true {} [.createUnique [0, 1], .add ⟨1, 10, 0, [5, 1, 7]⟩ .none,
+      .add ⟨2, 20, 0, [5, 2, 7]⟩ .none, .add ⟨3, 30, 0, [5, 2, 8]⟩ .none, .createMulti [0]]).rows[1]? = some ⟨2, 20, 1, [5, 2, 7]⟩ := by
+      decide
+    have hr' : (run visAll accSum true {} [.createUnique [0, 1], .add ⟨1, 10, 0, [5, 1, 7]⟩ .none,
+      .add ⟨2, 20, 0, [5, 2, 7]⟩ .none, .add ⟨3, 30, 0, [5, 2, 8]⟩ .none, .createMulti [0]]).rows[1]? = some r := hr
+    rw [this] at hr'; rw [← Option.some.inj hr']; decide
+  · intro r hr
+    have : (run visAll accSum true {} [.createUnique [0, 1], .add ⟨1, 10, 0, [5, 1, 7]⟩ .none,
+      .add ⟨2, 20, 0, [5, 2, 7]⟩ .none, .add ⟨3, 30, 0, [5, 2, 8]⟩ .none, .createMulti [0]]).rows[1]? = some ⟨2, 20, 1, [5, 2, 7]⟩ := by
+      decide
+    have hr' : (run visAll accSum true {} [.createUnique [0, 1], .add ⟨1, 10, 0, [5, 1, 7]⟩ .none,
+      .add ⟨2, 20, 0, [5, 2, 7]⟩ .none, .add ⟨3, 30, 0, [5, 2, 8]⟩ .none, .createMulti [0]]).rows[1]? = some r := hr
+    rw [this] at hr'; rw [← Option.some.inj hr']
+    unfold NoF9; decide
+
+open C07ex in
+/-- projections of the three-row table -/
+example : project visAll accSum t3 [0, 2] false (fun _ => true) = [[5, 7], [5, 7], [6, 7]] ∧
+    project visAll accSum t3 [0, 2] true (fun _ => true) = [[5, 7], [6, 7]] ∧
+    dedupFirst [] [[5, 7], [5, 7], [6, 7]] = [[5, 7], [6, 7]] := by decide
 
 end Momo.Table
